@@ -246,13 +246,13 @@ def c11(tier, replay):
     # have a mate in one for the mover ("mating") or where the bare king has moves that walk into one and moves that do not ("avoid")
     fam_cov = {}
     extra = []
-    for fam, tagname, smp in (("mating", "MATE1", 80 if q else 10), ("avoid", "AVOID", 240 if q else 40)):
-        r = vcommon.tlc("Fam", "Fam_%s.cfg" % fam, env={"FAMILY": fam, "SAMPLE": str(smp), "OFFSET": str(vcommon.seed() % smp)},
+    for fam, tagname, smp in (("mating", "MATE1", 80 if q else 10), ("avoid", "AVOID", 240 if q else 40), ("minor", "MATE1", 20 if q else 2)):
+        r = vcommon.tlc("Fam", "Fam_%s.cfg" % ("mating" if fam == "minor" else fam), env={"FAMILY": fam, "SAMPLE": str(smp), "OFFSET": str(vcommon.seed() % smp)},
                         workers=vcommon.NCPU, xmx="8g", timeout=3000)
         if not r["ok"]:
             raise ToolError("%s family enumeration failed:\n%s" % (fam, r["out"][-1500:]))
         members = vcommon.tlc_prints(r["out"], tagname)
-        if len(members) < 10:
+        if len(members) < (3 if fam == "minor" else 10):
             raise ToolError("coverage hole: %s family too small (%d)" % (fam, len(members)))
         run.add("states", r["distinct"])
         run.add("transitions", r["states"])
